@@ -122,6 +122,9 @@ def run(ctx):
             groups.append(dict(gx=gx, gy=one, jobs=[jobs[0]]))
             groups.append(dict(gx=one, gy=gx, jobs=[jobs[1]]))
     _run_groups(ctx, groups, "V-dtype-boundary", nproc=8)
+    # the other side of the same boundary: more than 127 VERTICES with a small diameter, under list / dense / sparse containers
+    big_reprs = [r for r in mgh.REPRS if r["kind"] in ("csr", "dense", "list", "lil")]
+    mgh.validate(ctx, mgh.many_vertices_items(rng, "C17", quick, reprs=big_reprs), "V-many-vertices-small-diameter", "C17", nproc=8)
     # collections
     jobs, gl = [], []
     for t in range(25 if quick else 250):
@@ -158,7 +161,12 @@ def _collections(ctx, jobs, gl, label, nproc=12):
 def replay(ctx, rec):
     c = rec["case"]
     j = c["job"]
-    if j["call"] == "pair":
+    if c.get("kind") == "mgh":
+        g = j["graphs"]
+        it = mgh.mk_pair_item((g[0]["n"], [tuple(e) for e in g[0]["edges"]]), (g[1]["n"], [tuple(e) for e in g[1]["edges"]]), g[0]["repr"], g[1]["repr"],
+                              j.get("seed", 0), j.get("order"), bool(c.get("exact", 1)), c.get("owner", "C17"), iso=c.get("iso"), cmaps=c.get("cmaps"))
+        mgh.validate(ctx, [it], "replay", "C17", nproc=1)
+    elif j["call"] == "pair":
         g = c["group"]
         _run_groups(ctx, [dict(gx=(g["gx"][0], [tuple(e) for e in g["gx"][1]]), gy=(g["gy"][0], [tuple(e) for e in g["gy"][1]]), disconnected=g.get("disconnected"), jobs=[j])], "replay", nproc=1)
     else:
